@@ -71,6 +71,42 @@ def c10_1(ctx):
     scope_p, addr_p, size_p = (p.arg for p in gb.call_params[:3])
     loops = [l for l in walk_no_nested(gb.node) if isinstance(l, ast.For) and unparse(l.iter) == 'self._instructions']
     if len(loops) != 1 or not isinstance(loops[0].target, ast.Name):
+        # other spellings of "each step at the macro's address plus the sizes of the steps before it"
+        want = 'each step is assembled at the macro\'s address plus the byte sizes of the steps before it (a relative or sliced-address operand in a later step depends on it)'
+        enum_idx = set()
+        for n in ast.walk(gb.node):
+            it = n.iter if isinstance(n, (ast.For, ast.comprehension)) else None
+            if isinstance(it, ast.Call) and unparse(it.func) == 'enumerate' and it.args and unparse(it.args[0]) == 'self._instructions' \
+                    and isinstance(n.target, ast.Tuple) and isinstance(n.target.elts[0], ast.Name):
+                enum_idx.add(n.target.elts[0].id)
+        step_calls = [c for c in ast.walk(gb.node) if isinstance(c, ast.Call) and isinstance(c.func, ast.Attribute) and c.func.attr == 'get_bytes' and len(c.args) >= 2
+                      and unparse(c.func.value) not in ('super()', 'self')]
+        for c in step_calls:
+            used = {n.id for n in ast.walk(c.args[1]) if isinstance(n, ast.Name)}
+            if used & enum_idx:
+                ctx.refute('composite:step-address', gb.site(c), want, f'{unparse(c.args[1])}: the offset is the step\'s index in the list, not the number of bytes before it')
+                return
+        accs = [c for c in ast.walk(gb.node) if isinstance(c, ast.Call) and unparse(c.func).split('.')[-1] == 'accumulate']
+        for a in accs:
+            arg = deref(ctx, gb, a.args[0], a) if a.args else None
+            init_kw = next((k.value for k in a.keywords if k.arg == 'initial'), None)
+            txt = unparse(arg) if arg is not None else ''
+
+            def sizes_list(e):
+                d = deref(ctx, gb, e, a) if isinstance(e, ast.Name) else e
+                return isinstance(d, (ast.ListComp, ast.GeneratorExp)) and unparse(d.elt).endswith('.byte_size') and unparse(d.generators[0].iter) == 'self._instructions' \
+                    and not d.generators[0].ifs
+            good = False
+            if init_kw is not None and sizes_list(arg):
+                good = unparse(init_kw) in (addr_p, '0')
+            elif isinstance(arg, ast.BinOp) and isinstance(arg.op, ast.Add) and isinstance(arg.left, ast.List) and len(arg.left.elts) == 1 \
+                    and unparse(arg.left.elts[0]) in (addr_p, '0') and isinstance(arg.right, ast.Subscript) and isinstance(arg.right.slice, ast.Slice) \
+                    and arg.right.slice.lower is None and unparse(arg.right.slice.upper) == '-1' and arg.right.slice.step is None and sizes_list(arg.right.value):
+                good = True
+            if not good:
+                ctx.refute('composite:step-address', gb.site(a), want,
+                           f'step addresses come from {unparse(a)} with {txt}: not the running sum that starts at the macro\'s address and leaves out the last step\'s size')
+                return
         ctx.err('composite:bytes-per-step', gb.site(), 'get_bytes loops once over self._instructions', f'{len(loops)} loops')
         return
     lp = loops[0]
